@@ -327,7 +327,11 @@ def valgrind_step(run, binaries, scale):
     with cf.ThreadPoolExecutor(max_workers=8) as ex:
         for b, n, evals, first in ex.map(one, [b for b, _ in binaries]):
             run.evaluations += evals; run.classes['valgrind:' + b + ':evaluations'] = evals
-            if n: run.fails.append(dict(kind='valgrind', key='valgrind/' + b + '/' + first[:100], binary=b, msg='valgrind memcheck reports %d error(s) in the %s engine: %s' % (n, b, first[:800])))
+            if n:
+                # an error whose stack lies entirely in the generators of the harness (rapidcheck / vf:: frames, no PhQ symbol anywhere) is a defect of the harness, not of the library
+                in_harness = 'PhQ' not in first and ('rc::' in first or 'vf::' in first or 'gen_' in first)
+                if in_harness: run.fails.append(dict(kind='harness', key='valgrind-harness/' + b, msg='valgrind memcheck reports an error inside the harness itself (%s engine): %s' % (b, first[:600])))
+                else: run.fails.append(dict(kind='valgrind', key='valgrind/' + b + '/' + first[:100], binary=b, msg='valgrind memcheck reports %d error(s) in the %s engine: %s' % (n, b, first[:800])))
     run.rules['valgrind'] = 'the unsanitised engines re-run under valgrind memcheck at a small fraction of the quick counts: any use of an uninitialised value, invalid read or write is a failure'
 
 @plan('C20')
